@@ -1,8 +1,9 @@
-(* Properties/C08.v — All views of a message agree (the relations proved so far; the rest —
-   marker/header views, iterator vs reader, NameRef::eq vs decoded comparison — is decided by the
-   views stream on the implementation alone, see DESIGN.md §5 C08). *)
-From RsdnsModel Require Import Base Cursor Names Labels Header Tracker RData Reader Script.
-From RsdnsModel.Proofs Require Import CursorSafe LabelsSound Views RandAccess.
+(* Properties/C08.v — All views of a message agree: the two owned name types; decoding vs skipping;
+   the three record-header flavours; the iterator API vs the cursor-style reader, record by record;
+   marker-based random access.  (NameRef::eq vs comparison of the decoded names and label iteration
+   vs decoding are decided by the views stream, see DESIGN.md 12.) *)
+From RsdnsModel Require Import Base GenReader Cursor Names Labels Header Tracker RData Reader Script Iter.
+From RsdnsModel.Proofs Require Import CursorSafe LabelsSound Views RandAccess Flavours IterAgree.
 Open Scope N_scope.
 
 (* owned names of the two types: identical values, errors (with payloads) and resume positions,
@@ -24,3 +25,44 @@ Theorem C08_random_access_view : forall msgs w i msg r mk ty,
 Proof.
   intros. destruct (at_pure msgs w i msg r mk) as (A & B & _); try assumption. split; [apply B|exact A].
 Qed.
+
+(* record_header::<N>() decodes the owner name, record_header_ref() and record_marker() skip it:
+   whenever the owned flavour succeeds the other two succeed on the same reader state, return the
+   same marker (offsets, type, class, TTL, RDLENGTH, section), leave the reader in the same state,
+   and the borrowed name starts where the owned name was decoded *)
+Theorem C08_header_flavours_agree : forall msg nk r r' n mk,
+  cwf msg (r_cur r) -> rd_header_n msg nk r = (r', Ok (OHeaderN n mk)) ->
+  rd_marker msg r = (r', Ok (OMarker mk)) /\
+  exists nref, rd_header_ref msg r = (r', Ok (OHeaderRef nref mk)) /\ pos nref = m_off mk /\
+    exists c', read_name msg nk nref = Ok (n, c').
+Proof. exact header_flavours_agree. Qed.
+
+(* Records::next() on a record of a known type and class returns exactly what
+   record_header::<InlineName>() followed by record_data::<D>() return on a reader in the same
+   state, and both end in the same state *)
+Theorem C08_iterator_item_is_reader_item : forall msg f r it it' x,
+  same_state r it -> cwf msg (ri_cur it) ->
+  records_read_impl msg (S f) it = (it', Ok (RItem x)) ->
+  (forall c1 ty cl ttl rdlen, (do* _ <- lift_c (skip_name msg); do* ty <- lift (c_u16 msg); do* cl <- lift (c_u16 msg);
+      do* ttl <- lift (c_u32 msg); do* rdlen <- lift (c_u16 msg); mret (ty, cl, ttl, rdlen)) (ri_cur it) = (c1, Ok (ty, cl, ttl, rdlen)) ->
+      iter_skip_unknown (class_defined cl) (type_defined ty) = false) ->
+  exists r1 mk r2,
+    rd_header_n msg Inline r = (r1, Ok (OHeaderN (rr_name x) mk)) /\
+    m_rtype mk = rr_type x /\ m_rclass mk = rr_class x /\ m_ttl mk = rr_ttl x /\ m_section mk = rr_section x /\
+    rd_data msg (rr_type x) mk r1 = (r2, Ok (ORData (rr_data x))) /\
+    r_cur r2 = ri_cur it' /\ r_tr r2 = ri_tr it'.
+Proof. exact iter_item_is_reader_item. Qed.
+
+(* on a record it skips (unknown type or class) the iterator moves exactly like record_marker()
+   followed by skip_record_data(), and continues from the state they reach *)
+Theorem C08_iterator_skip_is_reader_skip : forall msg f r it c1 ty cl ttl rdlen,
+  same_state r it ->
+  (do* _ <- lift_c (skip_name msg); do* ty <- lift (c_u16 msg); do* cl <- lift (c_u16 msg);
+   do* ttl <- lift (c_u32 msg); do* rdlen <- lift (c_u16 msg); mret (ty, cl, ttl, rdlen)) (ri_cur it) = (c1, Ok (ty, cl, ttl, rdlen)) ->
+  iter_skip_unknown (class_defined cl) (type_defined ty) = true ->
+  forall s tr1 c2 tr2, next_section (ri_tr it) (pos (ri_cur it)) = (tr1, Some s) ->
+  c_skip c1 rdlen = Ok c2 -> section_read tr1 s (pos c2) = Ok tr2 ->
+  records_read_impl msg (S f) it = records_read_impl msg f (mkRecIt c2 tr2 (ri_err it)) /\
+  exists r1 mk r2, rd_marker msg r = (r1, Ok (OMarker mk)) /\ m_rtype mk = ty /\ m_rclass mk = cl /\
+    rd_skip_data mk r1 = (r2, Ok OUnit) /\ r_cur r2 = c2 /\ r_tr r2 = tr2 /\ r_done r2 = false.
+Proof. exact iter_skip_is_reader_skip. Qed.
